@@ -186,6 +186,51 @@ Example width_rule_needed : valid_width 59 = false /\
   unpacker_get 59 5 (pack 59 (repeat (2 ^ 59 - 1) 6)) <> Some (2 ^ 59 - 1).
 Proof. vm_compute. split; [reflexivity|intros H; discriminate H]. Qed.
 
+(* ---- legacy columnar format (v1): multivalued index = one start offset per document ---- *)
+From TV Require Import Columnar.OptionalIndex Columnar.OptionalIndexProofs Columnar.MultiValued Columnar.MergeIndex Columnar.LegacyV1.
+
+(* MultiValueIndexV1::select_batch_in_place (test as pinned: MV1_SELECT_END_EXCLUSIVE): ascending value positions are
+   mapped to the documents that contain them, consecutive duplicates removed -- any non-decreasing start offsets,
+   any number of positions *)
+Theorem C08_legacy_select_batch : forall starts, nondecr starts ->
+  forall ranks cur last, positions_ok (hd 0 starts) (mv1_total starts) ranks ->
+  match ranks with [] => True | p :: _ => (cur <= mv1_doc_of starts p)%nat end ->
+  mv1_select_loop mv1_select_excl starts cur last ranks = Some (dedup_adj last (map (mv1_doc_of starts) ranks)).
+Proof. rewrite mv1_select_excl_present. exact mv1_select_loop_correct. Qed.
+
+(* with `end >= pos` instead, a lookup by value returns the predecessor of a matching document *)
+Theorem C08_legacy_select_inclusive_refuted :
+  exists c lo hi, mv1_docids_for_value_range false (mv1_start_offsets 0 c) (concat c) lo hi 0 (length c)
+                  <> Some (range_lookup lo hi c).
+Proof. exact mv1_select_inclusive_refuted. Qed.
+
+(* stacked merge with inputs in either format, at any position (flags as pinned: STACK_V1_DOCS_SHIFTED,
+   STACK_NUM_VALUES_SKIPS_EMPTY): the merged multivalued index is the index of the concatenated column --
+   provided the source skips value-less documents of v1 inputs, or no v1 multivalued input has one (F82) *)
+Theorem C08_merge_stacked_legacy : forall lkcs, inputs_ok (map strip lkcs) ->
+  (stack_num_values_skips_empty = true \/ legacy_no_empty lkcs) ->
+  let merged := merge_stacked (map snd lkcs) in
+  si_stack_rows stack_v1_docs_shifted (map si_of lkcs) 0 = Some (mv_docs_with_values merged) /\
+  si_start_offsets stack_num_values_skips_empty (map si_of lkcs) = mv_start_offsets 0 merged.
+Proof. exact stacked_with_legacy_inputs_pinned. Qed.
+
+(* a v1 input contributes to the merge exactly what the same column contributes in the current format *)
+Theorem C08_legacy_input_as_current : forall c s,
+  v1_docs_with_values true (N.of_nat s) 0 (mv1_start_offsets 0 c) = docs_from s c /\
+  v1_num_values true (mv1_start_offsets 0 c) = nz_counts c.
+Proof. exact v1_input_as_current. Qed.
+
+(* F82 (genuine defect): without skipping them, a value-less document of a v1 input duplicates a start offset *)
+Theorem C08_merge_stacked_legacy_empty_rows_refuted :
+  exists c, f82_class c = true /\
+    si_start_offsets false [si_of (true, KMulti, c)] <> mv_start_offsets 0 (merge_stacked [c]).
+Proof. exact stacked_legacy_empty_rows_refuted. Qed.
+
+(* without the row offset a v1 input that is not the first repeats document ids from 0 *)
+Theorem C08_merge_stacked_legacy_unshifted_refuted :
+  exists lkcs, si_stack_rows false (map si_of lkcs) 0 <> Some (mv_docs_with_values (merge_stacked (map snd lkcs))).
+Proof. exact stacked_legacy_unshifted_refuted. Qed.
+
 Print Assumptions C08_bitpack_roundtrip.
 Print Assumptions C08_unpacker_reads_window.
 Print Assumptions C08_packer_layout.
@@ -332,3 +377,9 @@ Proof. vm_compute. repeat split. Qed.
 Print Assumptions C08_optional_index.
 Print Assumptions C08_optional_index_block.
 Print Assumptions C08_optional_index_any_choice.
+Print Assumptions C08_legacy_select_batch.
+Print Assumptions C08_legacy_select_inclusive_refuted.
+Print Assumptions C08_merge_stacked_legacy.
+Print Assumptions C08_legacy_input_as_current.
+Print Assumptions C08_merge_stacked_legacy_empty_rows_refuted.
+Print Assumptions C08_merge_stacked_legacy_unshifted_refuted.
